@@ -197,6 +197,40 @@ impl Finalize for SumSink {
         self.0
     }
 }
+/// the harness's own collecting sink (C01: the pipe property must not depend on a library sink being right)
+#[derive(Clone, Default)]
+pub struct OwnCollect(Vec<Q>);
+impl Sink<Q> for OwnCollect {
+    fn sink(&mut self, x: Q) {
+        self.0.push(x);
+    }
+}
+impl Finalize for OwnCollect {
+    type Output = Vec<Q>;
+    fn finalize(self) -> Vec<Q> {
+        self.0
+    }
+}
+macro_rules! own_dyn_sink {
+    ($ty:ty) => {
+        impl DynSink for $ty {
+            fn sink(&mut self, x: Val) {
+                Sink::sink(self, Q::from_val(x))
+            }
+            fn ff(&mut self, _x: Val) -> String {
+                panic!("harness: the harness's own sinks are not filters")
+            }
+            fn fin(&self) -> String {
+                Finalize::finalize(self.clone()).r()
+            }
+            fn clone_box(&self) -> Box<dyn DynSink> {
+                Box::new(self.clone())
+            }
+        }
+    };
+}
+own_dyn_sink!(OwnCollect);
+own_dyn_sink!(SumSink);
 #[cfg(feature = "units")]
 #[derive(Clone)]
 pub struct UnitSumSink(sinks::unit_system::UnitSystem<SumSink, dimensioned::si::Meter<Q>>);
@@ -364,6 +398,8 @@ pub fn build_sink(kind: &str) -> Option<Box<dyn DynSink>> {
         "sink_meanvar" => Box::new(sinks::mean_variance::MeanVariance::<Q>::default()),
         "sink_stats" => Box::new(sinks::statistics::Statistics::<Q>::default()),
         "sink_collect" => Box::new(sinks::collect::Collect::<Vec<Q>>::default()),
+        "own_collect" => Box::new(OwnCollect::default()),
+        "own_sum" => Box::new(SumSink::default()),
         "sink_min_f64" => Box::new(sinks::min::Min::<f64>::default()),
         "sink_max_f64" => Box::new(sinks::max::Max::<f64>::default()),
         "sink_bounds_f64" => Box::new(sinks::bounds::Bounds::<f64>::default()),
@@ -755,6 +791,8 @@ impl Other {
                     "ok".to_string()
                 }),
             },
+            // an observation for the model driver only: it compares the answers the two sources gave last
+            "ssame" => Some("ok".into()),
             "pull" => {
                 let s = self.srcs.get_mut(&id(toks[1])).expect("harness: unknown source id");
                 Some(match s {
